@@ -262,6 +262,12 @@ def check_proc_full(exo_proc, driver=None):
         return res
     real = canon(body, True)
     res["real"] = real
+    if "raise" in ans and "simplify_cir:float" in str(ans["raise"]) and any(
+            re.search(r"\[[^\]]*(lit\(|\d\.\d)", l) for l in real):
+        # the model's simplify_cir has no float constants: `Const / Const` folded with Python's true division (finding F10,
+        # reported by C02/C15 through gcc: "array subscript is not an integer"); the real compiler prints the float
+        res["why"] = "F10:float-folded-index-constant"
+        return res
     if "raise" in ans:
         res["status"] = "mismatch"
         res["why"] = "model-raises"
